@@ -6,6 +6,9 @@ unknown) x message x {no assertion, valid signed assertion} x versions x
 """
 import itertools
 
+import re
+
+import c06_near as near
 import env
 import resp
 import translate
@@ -13,8 +16,8 @@ from core import Exn, cstr, cbool, copt, call
 from saml2_tophat import samlp, BINDING_HTTP_POST, BINDING_SOAP, BINDING_HTTP_REDIRECT
 
 CLAIM = {
-    "text": "Coq theorems (Props/C06.v) over the model of status_ok/_verify/verify and the None->error tail of _parse_response: a present non-Success top-level status or a Version other than 2.0 can never yield an accepted response, for every assertion content/signature state (the assertion stage is universally quantified) and every request-id/destination/time situation; when the earlier checks pass the error is exactly the documented class, with today's STATUSCODE2EXCEPTION regenerated from source and proved equal to the hand-written documented table. Tie to the code: exhaustive cross product of the property's quantifier through the real SP entry points vs the model on every run.",
-    "note": "Trusted: Coq kernel + vm_compute; the model is hand-written and tied to the code by the exhaustive correspondence table (POST and SOAP, authn/logout responses, authn requests); float() of Version strings is an oracle input; stand-in xmlsec1 for the signed-assertion cells; reflection translator for the status table. A response lacking <Status> altogether is outside the quantifier and is accepted by the code (modelled, reported as an observation).",
+    "text": "Coq theorems (Props/C06.v) over the model of status_ok/_verify/verify and the None->error tail of _parse_response: a present non-Success top-level status or a Version other than 2.0 can never yield an accepted response, for every assertion content/signature state (the assertion stage is universally quantified) and every request-id/destination/time situation; when the earlier checks pass the error is exactly the documented class, with today's STATUSCODE2EXCEPTION regenerated from source and proved equal to the hand-written documented table. The model compares codes by exact string equality, and it is proved that a top-level value other than the literal specification URN of Success - every proper substring or superstring, every string of another length, every member of a Gallina-generated near-miss set (one character dropped/inserted/replaced/case-changed, proper prefixes and suffixes incl. the empty string, white space around; proved different from the original for ANY string by induction) - is not Success and is never accepted; a second-level code outside the documented 21 gets the generic error, and no generated near-miss of a documented code is documented. Tie to the code: exhaustive cross product of the property's quantifier through the real SP entry points vs the model on every run, plus ~275 textual near-misses of the Success URN (literal spec strings) x second-level kinds x POST/SOAP with a valid signed assertion, the same through logout responses, the 21 second-level URNs as literal spec strings (exact documented class) and ~60 near-misses of each (refused, never a specific class).",
+    "note": "Trusted: Coq kernel + vm_compute; the model is hand-written and tied to the code by the exhaustive correspondence table (POST and SOAP, authn/logout responses, authn requests); float() of Version strings is an oracle input; stand-in xmlsec1 for the signed-assertion cells; reflection translator for the status table. For near-miss top-level codes only accepted/refused is compared (the class is unspecified there; Value="" / no Value are refused by the schema check before status_ok). A response lacking <Status> altogether is outside the quantifier and is accepted by the code (modelled, reported as an observation).",
     "technique": "machine-checked proof (Coq) + regenerated-table obligation + exhaustive model/implementation correspondence",
 }
 TRUSTED = [
@@ -22,10 +25,13 @@ TRUSTED = [
     "float() of the Version string is an oracle input of the model (ver_lt2), computed by Python itself per case",
     "modelled: StatusResponse.status_ok/_verify, AuthnResponse.verify, StatusResponse.verify, Request._verify, the None->AttributeError tail of Entity._parse_response; the assertion stage is an abstract parameter `rest` (any value) in the theorems",
     "stand-in xmlsec1 (harness/tools/xmlsec_core.py) signs/verifies the 'valid signed assertion' cells",
+    "near-miss cells: the <Status> element of a built response (assertion signed, response not) is replaced textually by literal XML; the XML parser's attribute handling is part of the real run, the model receives the intended string",
 ]
 ASSUMPTIONS = ["a response with no <Status> element at all is outside the property's quantifier (top-level status codes); the model carries it (C06_absent_status_passes) and the harness runs it without alarming"]
 RULE = ("exhaustive cross product of the property's quantifier, every cell run through Saml2Client.parse_authn_request_response "
-        "and through the model; a cell is non-trivial when the status is not Success or the version is not 2.0 (distinct by cell coordinates)")
+        "and through the model; a cell is non-trivial when the status is not Success or the version is not 2.0 (distinct by cell coordinates); "
+        "near-miss cells: the full literal near-miss list (harness/c06_near.py) x second-level kind x binding with a signed assertion, "
+        "assertion-less and extra top-level picks sampled by the seed on the quick tier, full cross on thorough")
 
 SOAP_ENV = ('<ns0:Envelope xmlns:ns0="http://schemas.xmlsoap.org/soap/envelope/"><ns0:Body>%s</ns0:Body></ns0:Envelope>')
 
@@ -125,6 +131,7 @@ def run(ctx):
                    "(verify_in * result (option unit))", cases)
     run_logout(ctx, sp)
     run_request(ctx)
+    run_near(ctx, sp)
 
 
 _DOC = None
@@ -201,6 +208,222 @@ def run_request(ctx):
                 if impl is True:
                     ctx.oracle_fail("request-version:%s" % ver, "request with Version %r handed over" % ver, dict(ver=ver, xml=str(rq)))
     ctx.correspond("request_verify", "Model.Status", "fun i : req_verify_in => show_unit_opt (request_verify i)", "req_verify_in", cases)
+
+
+# --------------------------------------------------------------------------
+# near-miss status codes (literal spec strings, harness/c06_near.py)
+# --------------------------------------------------------------------------
+PLACEHOLDER = "urn:PLACEHOLDER:STATUS"
+# coarse observables: only what the property fixes for these cells
+ACCEPTED = "fun r : result unit => match r with Ok _ => VB true | Err _ => VB false end"
+CLASS = ("fun r : result unit => match r with Ok _ => VB true | Err e => "
+         "if mem_str e (map snd status_table) then VE e else VE (s2l \"generic\") end")
+
+
+def _codes_coq(codes):
+    """[v0, v1, ...] (top first; None = StatusCode without Value) -> code_view term"""
+    t = "None"
+    for v in reversed(codes):
+        t = "(Some (Code %s %s))" % (copt(v, cstr), t)
+    return t
+
+
+def _status_xml(pfx, codes, msg, raw_ws=False):
+    """literal <Status> XML; raw_ws: white space written literally (the parser
+    normalises it to spaces) instead of as character references"""
+    def attr(v):
+        if v is None:
+            return ""
+        if raw_ws:
+            return ' Value="%s"' % near.xml_attr(v.replace("\t", "\x00T").replace("\n", "\x00N").replace("\r", "\x00R")) \
+                .replace("\x00T", "\t").replace("\x00N", "\n").replace("\x00R", "\r")
+        return ' Value="%s"' % near.xml_attr(v)
+    inner = ""
+    for v in reversed(codes):
+        inner = "<%s:StatusCode%s>%s</%s:StatusCode>" % (pfx, attr(v), inner, pfx)
+    m = "<%s:StatusMessage>%s</%s:StatusMessage>" % (pfx, msg, pfx) if msg is not None else ""
+    return "<%s:Status>%s%s</%s:Status>" % (pfx, inner, m, pfx)
+
+
+def _vin(bind, codes, msg):
+    st = "(Some {| st_code := %s; st_msg := %s |})" % (_codes_coq(codes), cbool(msg is not None))
+    return ("{| id_mismatch := false; version := Some (s2l \"2.0\"); ver_lt2 := Some false; asynchop := %s; dest_ok := true; "
+            "issue_ok := Ok true; status := %s |}" % (cbool(bind == "post"), st))
+
+
+class _Templates:
+    """one built (and signed) response per has_a; the <Status> element is
+    replaced textually afterwards (the response itself is not signed)"""
+
+    def __init__(self):
+        self.t = {}
+        for has_a in (False, True):
+            spec = resp.default_response(status={"code": PLACEHOLDER, "sub": None, "message": None},
+                                         assertions=[resp.default_assertion(sign=True)] if has_a else [])
+            xml = resp.build(spec)
+            m = re.search(r"<(\w+):Status>.*?</\1:Status>", xml, re.S)
+            assert m and PLACEHOLDER in m.group(0) and xml.count(PLACEHOLDER) == 1
+            self.t[has_a] = (xml[:m.start()], m.group(1), xml[m.end():])
+
+    def xml(self, has_a, codes, msg, raw_ws=False):
+        a, pfx, b = self.t[has_a]
+        return a + _status_xml(pfx, codes, msg, raw_ws) + b
+
+
+def _observe(sp, xml, bind):
+    if bind == "soap":
+        return resp.observe(sp, SOAP_ENV % xml, binding=BINDING_SOAP)
+    return resp.observe(sp, xml)
+
+
+def _short(v):
+    return repr(v) if len(v) < 70 else repr(v[:30] + "..." + v[-30:])
+
+
+def run_near(ctx, sp):
+    S = near.SUCCESS
+    rng = ctx.rng
+    std_second = sorted(near.DOCUMENTED)
+    UNK = "urn:example:status:NotAStatus"
+    with env.Clock(env.NOW):
+        tpl = _Templates()
+        # sanity of the template itself: with the Success URN literally in place the response IS accepted
+        for bind in ("post", "soap"):
+            got = _observe(sp, tpl.xml(True, [S], None), bind)
+            if not isinstance(got, list):
+                ctx.oracle_fail("success-literal-refused:%s" % bind,
+                                "response with the literal spec Success URN and a valid signed assertion not accepted: %r" % (got,),
+                                dict(bind=bind, xml=tpl.xml(True, [S], None)))
+
+        # ---- A. near-miss TOP-level codes: none may yield an identity ----------------------------------
+        tops = near.near_misses(S)
+        cases = []
+        for n, (kind, v) in enumerate(tops):
+            subs = [("none", []), ("standard", [std_second[n % len(std_second)]]), ("success", [S]),
+                    ("unknown", [UNK]), ("unknown>success", [UNK, S]), ("novalue", [None])]
+            for (sk, sub), bind in itertools.product(subs, ["post", "soap"]):
+                variants = [(True, None if (n + len(sk)) % 2 else "denied because", False)]
+                if not ctx.quick:
+                    variants = [(a, m, False) for a in (True, False) for m in (None, "denied because")]
+                elif rng.random() < 0.1:
+                    variants.append((False, None, False))
+                if any(c in v for c in "\t\n\r"):
+                    variants.append((True, None, True))
+                for has_a, msg, raw in variants:
+                    codes = [v] + sub
+                    xml = tpl.xml(has_a, codes, msg, raw)
+                    got = _observe(sp, xml, bind)
+                    acc = isinstance(got, list)
+                    rest = "(Ok (Some tt))" if has_a else '(Err (s2l "Exception"))'
+                    cases.append(dict(id=len(cases), coq="(%s, %s)" % (_vin(bind, codes, msg), rest), impl=acc,
+                                      show=dict(kind=kind, top=v, sub=sub, msg=msg, has_a=has_a, bind=bind, raw_ws=raw)))
+                    ctx.nontriv(("near-top", v, sk, msg, has_a, bind, raw))
+                    ctx.count("near-top:" + kind.split("-")[0])
+                    ctx.count("near-top-outcome:" + (got.name if isinstance(got, Exn) else "accepted" if acc else str(got)))
+                    if acc:
+                        ctx.oracle_fail("accepted-nearmiss-top:%s:%s:sub=%s:%s" % (kind, _short(v), sk, bind),
+                                        "top-level status %r (%s of the Success URN, not Success) with second-level %r yields identity %r"
+                                        % (v, kind, sub, got[1]), dict(top=v, sub=sub, msg=msg, has_a=has_a, bind=bind, xml=xml))
+            if n % 60 == 0:
+                ctx.sample(dict(cell=cases[-1]["show"], outcome="accepted" if cases[-1]["impl"] else "refused"))
+        ctx.correspond("near_miss_top_status", "Model.Status Gen.StatusTable",
+                       "fun c : verify_in * result (option unit) => (%s) (parse_tail (authn_verify (fst c) (snd c)))" % ACCEPTED,
+                       "(verify_in * result (option unit))", cases)
+
+        # ---- A'. the same through StatusResponse.verify (logout response, SOAP) -------------------------
+        from saml2_tophat import saml
+        lr = samlp.LogoutResponse(id="lr-1", in_response_to="req-1", version="2.0", issue_instant=env.ts(env.NOW),
+                                  issuer=saml.Issuer(text=env.IDP_ID),
+                                  status=resp._status({"code": PLACEHOLDER, "sub": None, "message": None}))
+        lx = str(lr)
+        m = re.search(r"<(\w+):Status>.*?</\1:Status>", lx, re.S)
+        assert m and lx.count(PLACEHOLDER) == 1
+        got = call(sp.parse_logout_request_response, SOAP_ENV % (lx[:m.start()] + _status_xml(m.group(1), [S], None) + lx[m.end():]), BINDING_SOAP)
+        if got is None or isinstance(got, Exn):
+            ctx.oracle_fail("logout-success-literal-refused", "logout response with the literal Success URN refused: %r" % (got,), dict())
+        cases = []
+        for n, (kind, v) in enumerate(tops):
+            for sk, sub in [("none", []), ("success", [S])]:
+                codes = [v] + sub
+                xml = lx[:m.start()] + _status_xml(m.group(1), codes, None) + lx[m.end():]
+                got = call(sp.parse_logout_request_response, SOAP_ENV % xml, BINDING_SOAP)
+                acc = not (got is None or isinstance(got, Exn))
+                cases.append(dict(id=len(cases), coq=_vin("soap", codes, None), impl=acc,
+                                  show=dict(kind=kind, top=v, sub=sub, msg_kind="logout_response")))
+                ctx.nontriv(("near-top-logout", v, sk))
+                if acc:
+                    ctx.oracle_fail("logout-accepted-nearmiss-top:%s:%s:sub=%s" % (kind, _short(v), sk),
+                                    "logout response with top-level status %r (%s of the Success URN) accepted" % (v, kind),
+                                    dict(top=v, sub=sub, xml=xml))
+        ctx.correspond("near_miss_top_logout", "Model.Status Gen.StatusTable",
+                       "fun i : verify_in => (%s) (parse_tail (status_verify i))" % ACCEPTED, "verify_in", cases)
+
+        # ---- B. the 21 standard second-level codes as LITERAL spec URNs: the documented class ----------
+        cases = []
+        for top, sec, has_a, bind in itertools.product(
+                [t for t in near.TOP_STANDARD if t != S], std_second, [False, True], ["post", "soap"]):
+            for codes in ([top, sec], [top, sec, S]):
+                if len(codes) == 3 and not (has_a and bind == "post"):
+                    continue
+                msg = None if rng.random() < 0.5 else "denied because"
+                xml = tpl.xml(has_a, codes, msg)
+                got = _observe(sp, xml, bind)
+                impl = True if isinstance(got, list) else got
+                rest = "(Ok (Some tt))" if has_a else '(Err (s2l "Exception"))'
+                cases.append(dict(id=len(cases), coq="(%s, %s)" % (_vin(bind, codes, msg), rest), impl=impl,
+                                  show=dict(codes=codes, msg=msg, has_a=has_a, bind=bind)))
+                ctx.nontriv(("second-literal", tuple(codes), has_a, bind))
+                want = near.DOCUMENTED[sec]
+                if impl is True:
+                    ctx.oracle_fail("accepted-nonsuccess-literal:%s:%s:%s" % (top, sec, bind),
+                                    "response with top-level status %r accepted" % top, dict(codes=codes, has_a=has_a, bind=bind, xml=xml))
+                elif top in near.TOP_STANDARD and not (isinstance(impl, Exn) and impl.name == want):
+                    ctx.oracle_fail("wrong-class-literal:%s:%s" % (sec, bind),
+                                    "spec second-level code %s under %s raised %s, documented class %s" % (sec, top, impl, want),
+                                    dict(codes=codes, has_a=has_a, bind=bind, xml=xml))
+        ctx.correspond("second_level_literal", "Model.Status Gen.StatusTable",
+                       "fun c : verify_in * result (option unit) => show_result (fun _ => VB true) (parse_tail (authn_verify (fst c) (snd c)))",
+                       "(verify_in * result (option unit))", cases)
+
+        # ---- C. near-misses of the standard second-level codes: refused, and not with a specific class --
+        cases = []
+        std_tops = [t for t in near.TOP_STANDARD if t != S]
+        seconds = [("success-as-second", S)] + [("near-success:" + k, v) for k, v in near.near_misses(S, full=False)]
+        for sec in std_second:
+            seconds += [(k, v) for k, v in near.near_misses(sec, full=False) if v not in near.DOCUMENTED]
+        for n, (kind, v) in enumerate(seconds):
+            picks = [(std_tops[n % 3], True, "post" if n % 2 else "soap")]
+            if not ctx.quick:
+                picks = [(t, a, b) for t in std_tops for a in (True, False) for b in ("post", "soap")]
+            elif rng.random() < 0.3:
+                picks.append((rng.choice(std_tops), rng.random() < 0.5, rng.choice(["post", "soap"])))
+            for top, has_a, bind in picks:
+                codes = [top, v]
+                msg = None if rng.random() < 0.5 else "denied because"
+                xml = tpl.xml(has_a, codes, msg)
+                got = _observe(sp, xml, bind)
+                if isinstance(got, list):
+                    impl = True
+                elif isinstance(got, Exn) and got.name in near.SPECIFIC:
+                    impl = got
+                else:
+                    impl = Exn("generic")
+                rest = "(Ok (Some tt))" if has_a else '(Err (s2l "Exception"))'
+                cases.append(dict(id=len(cases), coq="(%s, %s)" % (_vin(bind, codes, msg), rest), impl=impl,
+                                  show=dict(kind=kind, codes=codes, msg=msg, has_a=has_a, bind=bind)))
+                ctx.nontriv(("near-second", tuple(codes), has_a, bind))
+                ctx.count("near-second:" + kind.split(":")[0].split("-")[0])
+                if impl is True:
+                    ctx.oracle_fail("accepted-nearmiss-second:%s:%s:%s" % (top, _short(v), bind),
+                                    "response with top-level status %r and second-level %r accepted" % (top, v),
+                                    dict(codes=codes, has_a=has_a, bind=bind, xml=xml))
+                elif impl.name != "generic":
+                    ctx.oracle_fail("specific-class-for-nonstandard-second:%s:%s" % (_short(v), impl.name),
+                                    "second-level code %r is not a standard code (%s) but raised the specific class %s"
+                                    % (v, kind, impl.name), dict(codes=codes, has_a=has_a, bind=bind, xml=xml))
+        ctx.correspond("near_miss_second_level", "Model.Status Gen.StatusTable",
+                       "fun c : verify_in * result (option unit) => (%s) (parse_tail (authn_verify (fst c) (snd c)))" % CLASS,
+                       "(verify_in * result (option unit))", cases)
 
 
 def replay(ctx, payload):
